@@ -96,6 +96,25 @@ func init() {
 		return mkctx(e, e.newContext(nil)), true
 	}
 	intrinsics["context.TODO"] = intrinsics["context.Background"]
+	// maps.clone (runtime linkname behind maps.Clone): shallow copy of a map held in an interface
+	intrinsics["maps.clone"] = func(e *Exec, g *G, fn *ssa.Function, args []Value) (Value, bool) {
+		ifc, ok := args[0].(Iface)
+		if !ok {
+			e.unsupported("maps.clone of %T", args[0])
+		}
+		m, _ := ifc.V.(*MapObj)
+		if m == nil {
+			return ifc, true
+		}
+		c := &MapObj{KT: m.KT, VT: m.VT}
+		for _, en := range m.Entries {
+			if en.Live {
+				c.seq++
+				c.Entries = append(c.Entries, &MapEntry{K: copyVal(en.K), V: copyVal(en.V), Live: true, Seq: c.seq})
+			}
+		}
+		return Iface{T: ifc.T, V: c}, true
+	}
 	withTimeout := func(e *Exec, g *G, fn *ssa.Function, args []Value) (Value, bool) {
 		o := e.newContext(args[0])
 		if len(args) > 1 {
